@@ -12,8 +12,10 @@ Go code makes on them; `WriterContract`, `ReaderBase`, `StrongReset`, `WeakReset
 the contracts is equality up to observable behaviour (take the abstract state space to be the
 quotient); "after Reset the stream is a fresh stream" is `reset s src = new src`.
 
-SPEC-side / proposed-repair parts: `Policy.dropFailed` (do not reuse a reader whose decode
-failed), `lz4LoopStrict` (retry only on "destination too short").
+Two revisions of the code are mirrored (`Rev`): `.fixed` is /repo as it stands (commits
+18102b0 lz4 bound, 375db5b Decompressor returns reader errors / drops failed readers / never
+starts with an empty destination); `.beforeFix` is the code before them, kept so that the
+negation witnesses F16/F17/F18 stay as regression facts (`…_before_fix` in Props/C20).
 
 A sync.Pool hands out *any* idle object or none: every call carries a `pick` (the creation
 number of the object the pool returns, `none` = the pool returns nil).  A call is split into
@@ -131,53 +133,63 @@ def loopOutcome : LoopEnd → Bytes → Outcome
   | .hang, _ => .hang
   | .oob, _ => .panic
 
-/-- MIRROR compress/compress.go:125-129: `cap(dst)==0 → make([]byte,0,2*len(src))`, else `dst[:0]` -/
-def decCap (dstCap : Nat) (src : Bytes) : Nat := if dstCap = 0 then 2 * src.length else dstCap
+/-- which revision of compress/compress.go and compress/lz4/lz4.go is mirrored -/
+inductive Rev
+  | beforeFix   -- up to 9f76fa7
+  | fixed       -- 18102b0 + 375db5b: the code as it stands
+  deriving DecidableEq
 
-/-- MIRROR compress/compress.go:99-147 without the deferred function: `readers.Get(new, reset)`
-then the read loop.  A constructor/Reset error is `panic(err)`; nothing recovers it ("Will be
-caught below" is not true of the code): the call panics, and a reader that had been taken from
-the pool is lost.  On `hang` the call never returns: the reader stays owned forever. -/
-def decBegin {ρ} (R : ReaderImpl ρ) (fuel : Nat) (d : DPool ρ) (pick : Option Nat) (dstCap : Nat)
-    (src : Bytes) : BeginRes (DPool ρ) :=
+/-- MIRROR compress/compress.go:133-137 (fixed): `cap(dst)==0 → make([]byte,0,max(2*len(src),64))`,
+else `dst[:0]`; before the fix the new buffer had capacity `2*len(src)` (0 for an empty src). -/
+def decCap (rev : Rev) (dstCap : Nat) (src : Bytes) : Nat :=
+  if dstCap = 0 then (if rev = .fixed then max (2 * src.length) 64 else 2 * src.length) else dstCap
+
+/-- result of a failed constructor / `Reset(src)` inside `Get`: before the fix `panic(err)` that
+nothing recovered; fixed (compress.go:102-119): `return dst[:0], initErr` -/
+def initFailure : Rev → Outcome
+  | .beforeFix => .panic
+  | .fixed => .err []
+
+/-- MIRROR compress/compress.go:99-155 without the deferred function: `readers.Get(new, reset)`,
+the constructor / Reset error check, then the read loop.  In both revisions a reader that had
+been taken from the pool is lost when Reset(src) fails and the deferred function is not armed.
+The flag kept with the owned reader is "the named result `err` is nil when the deferred function
+runs" (true after io.EOF, and also when the loop panicked).  On `hang` the call never returns. -/
+def decBegin {ρ} (R : ReaderImpl ρ) (rev : Rev) (fuel : Nat) (d : DPool ρ) (pick : Option Nat)
+    (dstCap : Nat) (src : Bytes) : BeginRes (DPool ρ) :=
   match take d.idle pick with
   | (none, _) =>
     match R.new src with
-    | none => ⟨.panic, d, [.newFail], false⟩
+    | none => ⟨initFailure rev, d, [.newFail], false⟩
     | some s =>
-      let l := readLoop R fuel s [] (decCap dstCap src)
+      let l := readLoop R fuel s [] (decCap rev dstCap src)
       ⟨loopOutcome l.fin l.acc,
-       { d with busy := (⟨d.next, l.st⟩, decide (l.fin = .eof)) :: d.busy, next := d.next + 1 },
+       { d with busy := (⟨d.next, l.st⟩, decide (l.fin = .eof ∨ l.fin = .oob)) :: d.busy,
+                next := d.next + 1 },
        .getNew d.next :: l.evs, true⟩
   | (some it, idle) =>
     match R.reset it.st (some src) with
-    | none => ⟨.panic, { d with idle := idle }, [.resetFail it.id], false⟩
+    | none => ⟨initFailure rev, { d with idle := idle }, [.resetFail it.id], false⟩
     | some s =>
-      let l := readLoop R fuel s [] (decCap dstCap src)
+      let l := readLoop R fuel s [] (decCap rev dstCap src)
       ⟨loopOutcome l.fin l.acc,
-       { d with idle := idle, busy := (⟨it.id, l.st⟩, decide (l.fin = .eof)) :: d.busy },
+       { d with idle := idle,
+                busy := (⟨it.id, l.st⟩, decide (l.fin = .eof ∨ l.fin = .oob)) :: d.busy },
        .getReuse it.id :: l.evs, true⟩
 
-/-- the code as it is, or the proposed repair (a reader whose decode failed is not reused) -/
-inductive Policy
-  | asIs | dropFailed
-  deriving DecidableEq
-
-/-- MIRROR compress/compress.go:118-123, the deferred function of `Decompressor.Decode` run by
-the `k`-th in-flight call: `Reset(nil)`; `Put` only if that returned no error.
-(`Policy.dropFailed` is the repair: additionally requires that the decode returned no error.) -/
-def decEnd {ρ} (R : ReaderImpl ρ) (pol : Policy) (d : DPool ρ) (k : Nat) : DPool ρ × List Ev :=
+/-- MIRROR the deferred function of `Decompressor.Decode` run by the `k`-th in-flight call.
+fixed (compress.go:121-131): `if err != nil { return }` — a reader whose decode failed is dropped
+without even being Reset —, else `Reset(nil)` and `Put` only if that returned no error.
+beforeFix: `Reset(nil)`, `Put` if that returned no error, whatever the decode returned. -/
+def decEnd {ρ} (R : ReaderImpl ρ) (rev : Rev) (d : DPool ρ) (k : Nat) : DPool ρ × List Ev :=
   match d.busy[k]? with
   | none => (d, [])
-  | some (it, succeeded) =>
+  | some (it, errNil) =>
     let busy := d.busy.eraseIdx k
+    if rev = .fixed ∧ errNil = false then ({ d with busy := busy }, [.drop it.id]) else
     match R.reset it.st none with
     | none => ({ d with busy := busy }, [.resetNil false, .drop it.id])
-    | some s =>
-      if pol = .dropFailed ∧ succeeded = false then
-        ({ d with busy := busy }, [.resetNil true, .drop it.id])
-      else
-        ({ d with busy := busy, idle := ⟨it.id, s⟩ :: d.idle }, [.resetNil true, .put it.id])
+    | some s => ({ d with busy := busy, idle := ⟨it.id, s⟩ :: d.idle }, [.resetNil true, .put it.id])
 
 /-! ## Compressor (compress/compress.go:49-88) -/
 
@@ -257,7 +269,7 @@ def encEnd {ω} (W : WriterImpl ω) (c : CPool ω) (k : Nat) : CPool ω × List 
 structure Codec (ω ρ : Type) where
   W : WriterImpl ω
   R : ReaderImpl ρ
-  pol : Policy
+  rev : Rev
   fuel : Nat
 
 structure CState (ω ρ : Type) where
@@ -288,10 +300,10 @@ def step {ω ρ} (C : Codec ω ρ) (s : CState ω ρ) : Call → StepRes ω ρ
     let r := encEnd C.W s.c k
     ⟨{ s with c := r.1 }, none, r.2⟩
   | .decBegin p dc src =>
-    let r := decBegin C.R C.fuel s.d p dc src
+    let r := decBegin C.R C.rev C.fuel s.d p dc src
     ⟨{ s with d := r.pool }, some r.out, r.evs⟩
   | .decEnd k =>
-    let r := decEnd C.R C.pol s.d k
+    let r := decEnd C.R C.rev s.d k
     ⟨{ s with d := r.1 }, none, r.2⟩
   | .encode p dc src =>
     let r := encBegin C.W s.c p dc src
@@ -300,10 +312,10 @@ def step {ω ρ} (C : Codec ω ρ) (s : CState ω ρ) : Call → StepRes ω ρ
     let e := encEnd C.W r.pool 0
     ⟨{ s with c := e.1 }, some r.out, r.evs ++ e.2⟩
   | .decode p dc src =>
-    let r := decBegin C.R C.fuel s.d p dc src
-    -- no deferred function if Get panicked; a call that hangs never reaches it
+    let r := decBegin C.R C.rev C.fuel s.d p dc src
+    -- no deferred function if Get failed; a call that hangs never reaches it
     if r.armed = false ∨ r.out = .hang then ⟨{ s with d := r.pool }, some r.out, r.evs⟩ else
-    let e := decEnd C.R C.pol r.pool 0
+    let e := decEnd C.R C.rev r.pool 0
     ⟨{ s with d := e.1 }, some r.out, r.evs ++ e.2⟩
 
 def run {ω ρ} (C : Codec ω ρ) (s : CState ω ρ) : List Call → CState ω ρ
@@ -476,95 +488,148 @@ MIRROR below never looks at it. -/
 structure Lz4Impl where
   ub : Bytes → Nat → Except BlockErr Bytes
 
-/-- MIRROR compress/lz4/lz4.go:64-77 the `for` loop: any error doubles `dst`.
+/-- MIRROR compress/lz4/lz4.go:64-84 (fixed, 18102b0) the `for` loop: on any error, give up once
+`len(dst) > 255*len(src)+64` (`return dst[:0], err`), else retry with `2*len(dst)+64` bytes.
+Result: `some out` / `none` = the error is returned, and the final `len(dst)`; outer `none` =
+out of fuel. -/
+def lz4Loop (L : Lz4Impl) (src : Bytes) : Nat → Nat → Option (Option Bytes × Nat)
+  | 0, _ => none
+  | fuel + 1, len =>
+    match L.ub src len with
+    | .ok out => some (some out, len)
+    | .error _ =>
+      if len > 255 * src.length + 64 then some (none, len)
+      else lz4Loop L src fuel (2 * len + 64)
+
+/-- MIRROR compress/lz4/lz4.go:58-85 `Codec.Decode`: `dst = reserveAtLeast(dst, 3*len(src))` -/
+def lz4Decode (L : Lz4Impl) (fuel dstCap : Nat) (src : Bytes) : Option (Option Bytes × Nat) :=
+  lz4Loop L src fuel (reserveAtLeast dstCap (3 * src.length))
+
+/-- MIRROR of the loop BEFORE 18102b0: any error doubles `dst`, for ever.
 Result: decoded bytes and the final `len(dst)`; `none` = out of fuel. -/
-def lz4Loop (L : Lz4Impl) (src : Bytes) : Nat → Nat → Option (Bytes × Nat)
+def lz4LoopBeforeFix (L : Lz4Impl) (src : Bytes) : Nat → Nat → Option (Bytes × Nat)
   | 0, _ => none
   | fuel + 1, len =>
     match L.ub src len with
     | .ok out => some (out, len)
-    | .error _ => lz4Loop L src fuel (2 * len)
+    | .error _ => lz4LoopBeforeFix L src fuel (2 * len)
 
-/-- MIRROR compress/lz4/lz4.go:58-78 `Codec.Decode`: `dst = reserveAtLeast(dst, 3*len(src))` -/
-def lz4Decode (L : Lz4Impl) (fuel dstCap : Nat) (src : Bytes) : Option (Bytes × Nat) :=
-  lz4Loop L src fuel (reserveAtLeast dstCap (3 * src.length))
-
-/-- SPEC (repair): retry only when the block decoder says the destination is too short -/
-def lz4LoopStrict (L : Lz4Impl) (src : Bytes) : Nat → Nat → Option (Except BlockErr Bytes × Nat)
-  | 0, _ => none
-  | fuel + 1, len =>
-    match L.ub src len with
-    | .ok out => some (.ok out, len)
-    | .error .malformed => some (.error .malformed, len)
-    | .error .short => lz4LoopStrict L src fuel (2 * len)
+def lz4DecodeBeforeFix (L : Lz4Impl) (fuel dstCap : Nat) (src : Bytes) : Option (Bytes × Nat) :=
+  lz4LoopBeforeFix L src fuel (reserveAtLeast dstCap (3 * src.length))
 
 /-- ASSUMED about the block format: `enc x` decodes to `x` exactly when the destination has at
-least `need x` bytes, and is otherwise reported as too short -/
+least `need x` bytes, and is otherwise reported as too short; a block expands at most 255 times
+(`need x ≤ 255·len(enc x) + 65` is what the loop's give-up test relies on) -/
 structure Lz4Contract (L : Lz4Impl) (enc : Bytes → Bytes) (need : Bytes → Nat) : Prop where
   fits : ∀ x n, need x ≤ n → L.ub (enc x) n = .ok x
   short : ∀ x n, n < need x → L.ub (enc x) n = .error .short
+  ratio : ∀ x, need x ≤ 255 * (enc x).length + 65
 
-/-- the loop returns after exactly `k` doublings when `k` is the first exponent that fits -/
-theorem lz4Loop_valid {L enc need} (h : Lz4Contract L enc need) (x : Bytes) :
-    ∀ (k len : Nat), need x ≤ len * 2 ^ k → (∀ j, j < k → len * 2 ^ j < need x) →
-      lz4Loop L (enc x) (k + 1) len = some (x, len * 2 ^ k) ∧
-      lz4Loop L (enc x) k len = none := by
-  intro k
-  induction k with
-  | zero =>
-    intro len h1 _
-    simp only [Nat.pow_zero, Nat.mul_one] at h1
-    simp [lz4Loop, h.fits x len h1]
-  | succ k ih =>
-    intro len h1 h2
-    have h0 : len < need x := by simpa using h2 0 (by omega)
-    have hk : need x ≤ 2 * len * 2 ^ k := by
-      have : len * 2 ^ (k + 1) = 2 * len * 2 ^ k := by rw [Nat.pow_succ]; ac_rfl
-      omega
-    have hj : ∀ j, j < k → 2 * len * 2 ^ j < need x := by
-      intro j hj
-      have := h2 (j + 1) (by omega)
-      have e : len * 2 ^ (j + 1) = 2 * len * 2 ^ j := by rw [Nat.pow_succ]; ac_rfl
-      omega
-    have := ih (2 * len) hk hj
-    have e : len * 2 ^ (k + 1) = 2 * len * 2 ^ k := by rw [Nat.pow_succ]; ac_rfl
-    constructor
-    · rw [lz4Loop, h.short x len h0]; simp only; rw [this.1, e]
-    · rw [lz4Loop, h.short x len h0]; simp only; exact this.2
+/-- `len(dst)` after `j` retries -/
+def lz4Len (len : Nat) : Nat → Nat
+  | 0 => len
+  | j + 1 => lz4Len (2 * len + 64) j
 
-/-- the doubling loop on an input every size rejects: never returns, and the buffer it asks
-for after `k` rounds is `len * 2^k` -/
-theorem lz4Loop_rejecting (L : Lz4Impl) (src : Bytes) (hbad : ∀ n, ∃ e, L.ub src n = .error e) :
-    ∀ fuel len, lz4Loop L src fuel len = none := by
+theorem lz4Len_eq (len j : Nat) : lz4Len len j + 64 = (len + 64) * 2 ^ j := by
+  induction j generalizing len with
+  | zero => simp [lz4Len]
+  | succ j ih =>
+    rw [lz4Len, ih (2 * len + 64), Nat.pow_succ]
+    have : 2 * len + 64 + 64 = (len + 64) * 2 := by omega
+    rw [this, Nat.mul_assoc, Nat.mul_comm 2 (2 ^ j)]
+
+/-- before the fix: on an input every size rejects the loop never returns -/
+theorem lz4LoopBeforeFix_rejecting (L : Lz4Impl) (src : Bytes) (hbad : ∀ n, ∃ e, L.ub src n = .error e) :
+    ∀ fuel len, lz4LoopBeforeFix L src fuel len = none := by
   intro fuel
   induction fuel with
   | zero => intro len; rfl
   | succ fuel ih =>
     intro len
     obtain ⟨e, he⟩ := hbad len
-    rw [lz4Loop, he]; exact ih _
+    rw [lz4LoopBeforeFix, he]; exact ih _
 
-/-- strict loop: at most `k+1` rounds for every source once `short` is never reported for
-buffers of `bound` bytes or more -/
-theorem lz4LoopStrict_terminates (L : Lz4Impl) (src : Bytes) (bound : Nat)
-    (hb : ∀ n, bound ≤ n → L.ub src n ≠ .error .short) :
-    ∀ (k len : Nat), bound ≤ len * 2 ^ k → (lz4LoopStrict L src (k + 1) len).isSome = true := by
+/-- fixed loop, EVERY source and block decoder: `k+1` rounds suffice once
+`255·len(src) + 128 < (len+64)·2^k` -/
+theorem lz4Loop_terminates (L : Lz4Impl) (src : Bytes) :
+    ∀ (k len : Nat), 255 * src.length + 64 + 64 < (len + 64) * 2 ^ k →
+      (lz4Loop L src (k + 1) len).isSome = true := by
+  intro k
+  induction k with
+  | zero =>
+    intro len h
+    simp only [Nat.pow_zero, Nat.mul_one] at h
+    rw [lz4Loop]
+    split
+    · rfl
+    · rw [if_pos (by omega)]; rfl
+  | succ k ih =>
+    intro len h
+    rw [lz4Loop]
+    split
+    · rfl
+    · split
+      · rfl
+      · apply ih
+        have e : (2 * len + 64 + 64) * 2 ^ k = (len + 64) * 2 ^ (k + 1) := by
+          rw [Nat.pow_succ]
+          have : 2 * len + 64 + 64 = (len + 64) * 2 := by omega
+          rw [this, Nat.mul_assoc, Nat.mul_comm 2 (2 ^ k)]
+        omega
+
+/-- an `ok` result of the fixed loop is what the block decoder returned for the final buffer -/
+theorem lz4Loop_ok_sound (L : Lz4Impl) (src : Bytes) :
+    ∀ (fuel len : Nat) (out : Bytes) (l : Nat),
+      lz4Loop L src fuel len = some (some out, l) → L.ub src l = .ok out := by
+  intro fuel
+  induction fuel with
+  | zero => intro len out l h; simp [lz4Loop] at h
+  | succ fuel ih =>
+    intro len out l h
+    rw [lz4Loop] at h
+    split at h
+    · rename_i o ho
+      simp only [Option.some.injEq, Prod.mk.injEq] at h
+      obtain ⟨rfl, rfl⟩ := h
+      exact ho
+    · split at h
+      · simp at h
+      · exact ih _ _ _ h
+
+/-- fixed loop on valid input: with fuel `k+1`, `need x + 64 ≤ (len+64)·2^k`, it returns `x`
+after `j ≤ k` retries, `j` the first retry count whose buffer fits; fuel `j` is not enough -/
+theorem lz4Loop_valid_fuel {L enc need} (h : Lz4Contract L enc need) (x : Bytes) :
+    ∀ (k len : Nat), need x + 64 ≤ (len + 64) * 2 ^ k →
+      ∃ j, j ≤ k ∧ lz4Loop L (enc x) (k + 1) len = some (some x, lz4Len len j) ∧
+        need x ≤ lz4Len len j ∧ (∀ i, i < j → lz4Len len i < need x) ∧
+        lz4Loop L (enc x) j len = none := by
   intro k
   induction k with
   | zero =>
     intro len h1
     simp only [Nat.pow_zero, Nat.mul_one] at h1
-    have := hb len h1
-    rw [lz4LoopStrict]
-    split <;> simp_all
+    have hfit : need x ≤ len := by omega
+    exact ⟨0, Nat.le_refl _, by simp [lz4Loop, lz4Len, h.fits x len hfit], by simpa [lz4Len] using hfit,
+      fun i hi => by omega, rfl⟩
   | succ k ih =>
     intro len h1
-    have e : len * 2 ^ (k + 1) = 2 * len * 2 ^ k := by rw [Nat.pow_succ]; ac_rfl
-    rw [lz4LoopStrict]
-    split
-    · simp
-    · simp
-    · exact ih (2 * len) (by omega)
+    by_cases hfit : need x ≤ len
+    · exact ⟨0, by omega, by simp [lz4Loop, lz4Len, h.fits x len hfit], by simpa [lz4Len] using hfit,
+        fun i hi => by omega, rfl⟩
+    · have e : (2 * len + 64 + 64) * 2 ^ k = (len + 64) * 2 ^ (k + 1) := by
+        rw [Nat.pow_succ]
+        have : 2 * len + 64 + 64 = (len + 64) * 2 := by omega
+        rw [this, Nat.mul_assoc, Nat.mul_comm 2 (2 ^ k)]
+      obtain ⟨j, hj, hr, hn, hlt, hnone⟩ := ih (2 * len + 64) (by omega)
+      have hratio := h.ratio x
+      have hgo : ¬ len > 255 * (enc x).length + 64 := by omega
+      refine ⟨j + 1, by omega, ?_, by simpa [lz4Len] using hn, ?_, ?_⟩
+      · rw [lz4Loop, h.short x len (by omega)]; simp only [hgo, ↓reduceIte]; rw [hr]; rfl
+      · intro i hi
+        cases i with
+        | zero => simpa [lz4Len] using Nat.lt_of_not_le hfit
+        | succ i => simpa [lz4Len] using hlt i (by omega)
+      · rw [lz4Loop, h.short x len (by omega)]; simp only [hgo, ↓reduceIte]; exact hnone
 
 /-! ## A concrete toy stream family (witnesses, non-vacuity, and the L2 instrumented stream)
 
@@ -644,8 +709,8 @@ def toyWriter (cfg : ToyCfg) : WriterImpl ToyW where
   close := fun s =>
     if s.first ≠ none ∧ s.first = cfg.failCloseOn then (s, [], false) else (s, [0], true)
 
-def toyCodec (cfg : ToyCfg) (pol : Policy) (fuel : Nat) : Codec ToyW ToyR :=
-  ⟨toyWriter cfg, toyReader cfg, pol, fuel⟩
+def toyCodec (cfg : ToyCfg) (rev : Rev) (fuel : Nat) : Codec ToyW ToyR :=
+  ⟨toyWriter cfg, toyReader cfg, rev, fuel⟩
 
 theorem toyBody_enc (x : Bytes) : toyBody (x.flatMap (fun b => [1, b]) ++ [0]) = (x, .clean, []) := by
   induction x with
@@ -760,117 +825,48 @@ theorem encBegin_ok {ω} {W : WriterImpl ω} {enc} (h : WriterContract W enc) (c
   · rename_i it idle _
     simp only [h.reset_fresh it.st s0 h0]; exact writeClose_fresh h s0 h0 x
 
-theorem decCap_pos {enc : Bytes → Bytes} (hne : ∀ x, enc x ≠ []) (dc : Nat) (x : Bytes) :
-    0 < decCap dc (enc x) := by
+theorem decCap_pos {enc : Bytes → Bytes} (hne : ∀ x, enc x ≠ []) (rev : Rev) (dc : Nat) (x : Bytes) :
+    0 < decCap rev dc (enc x) := by
+  have : 0 < (enc x).length := List.length_pos_iff.mpr (hne x)
   unfold decCap
   split
-  · have : 0 < (enc x).length := List.length_pos_iff.mpr (hne x)
-    omega
+  · split <;> omega
   · omega
 
-/-- strong Reset contract: whatever the pool holds and hands out, decoding `enc x` gives `x` -/
+/-- strong Reset contract, either revision: whatever the pool holds and hands out, decoding
+`enc x` gives `x` -/
 theorem decBegin_ok_strong {ρ} {R : ReaderImpl ρ} {enc} (B : ReaderBase R enc) (hS : StrongReset R)
-    (fuel : Nat) (x : Bytes) (hf : ∀ s0, R.new (enc x) = some s0 → B.steps s0 < fuel)
+    (rev : Rev) (fuel : Nat) (x : Bytes) (hf : ∀ s0, R.new (enc x) = some s0 → B.steps s0 < fuel)
     (d : DPool ρ) (pick : Option Nat) (dc : Nat) :
-    (decBegin R fuel d pick dc (enc x)).out = .ok x := by
+    (decBegin R rev fuel d pick dc (enc x)).out = .ok x := by
   obtain ⟨s0, h0, hp, hc⟩ := B.new_enc x
-  have hl := readLoop_clean B fuel s0 [] (decCap dc (enc x)) hc
-    (by simpa using decCap_pos B.enc_nonempty dc x) (hf s0 h0)
+  have hl := readLoop_clean B fuel s0 [] (decCap rev dc (enc x)) hc
+    (by simpa using decCap_pos B.enc_nonempty rev dc x) (hf s0 h0)
   unfold decBegin
   split
   · simp only [h0, hl.1, hl.2, hp, loopOutcome, List.nil_append]
   · rename_i it idle _
     simp only [hS it.st (enc x), h0, hl.1, hl.2, hp, loopOutcome, List.nil_append]
 
-/-- invariant of the repaired pool under the weak contract -/
+/-- invariant of the pool under the weak contract: idle readers, and owned readers whose decode
+returned no error, are resettable -/
 def DInv {ρ} {R : ReaderImpl ρ} (K : WeakReset R) (d : DPool ρ) : Prop :=
   (∀ it, it ∈ d.idle → K.resettable it.st = true) ∧
   (∀ p, p ∈ d.busy → p.2 = true → K.resettable p.1.st = true)
 
 theorem decBegin_ok_weak {ρ} {R : ReaderImpl ρ} {enc} (B : ReaderBase R enc) (K : WeakReset R)
-    (fuel : Nat) (x : Bytes) (hf : ∀ s0, R.new (enc x) = some s0 → B.steps s0 < fuel)
+    (rev : Rev) (fuel : Nat) (x : Bytes) (hf : ∀ s0, R.new (enc x) = some s0 → B.steps s0 < fuel)
     (d : DPool ρ) (hd : DInv K d) (pick : Option Nat) (dc : Nat) :
-    (decBegin R fuel d pick dc (enc x)).out = .ok x := by
+    (decBegin R rev fuel d pick dc (enc x)).out = .ok x := by
   obtain ⟨s0, h0, hp, hc⟩ := B.new_enc x
-  have hl := readLoop_clean B fuel s0 [] (decCap dc (enc x)) hc
-    (by simpa using decCap_pos B.enc_nonempty dc x) (hf s0 h0)
+  have hl := readLoop_clean B fuel s0 [] (decCap rev dc (enc x)) hc
+    (by simpa using decCap_pos B.enc_nonempty rev dc x) (hf s0 h0)
   unfold decBegin
   split
   · simp only [h0, hl.1, hl.2, hp, loopOutcome, List.nil_append]
   · rename_i it idle ht
     have hr := K.reset_fresh_of it.st (enc x) (hd.1 it (take_some ht).1)
     simp only [hr, h0, hl.1, hl.2, hp, loopOutcome, List.nil_append]
-
-theorem decBegin_inv {ρ} {R : ReaderImpl ρ} (K : WeakReset R) (fuel : Nat) (d : DPool ρ)
-    (hd : DInv K d) (pick : Option Nat) (dc : Nat) (src : Bytes) :
-    DInv K (decBegin R fuel d pick dc src).pool := by
-  unfold decBegin
-  split
-  · split
-    · exact hd
-    · refine ⟨hd.1, ?_⟩
-      intro p hp ht
-      simp only [List.mem_cons] at hp
-      rcases hp with rfl | hp
-      · simp only [decide_eq_true_eq] at ht
-        exact readLoop_eof_resettable K _ _ _ _ ht
-      · exact hd.2 p hp ht
-  · rename_i it idle htk
-    have hsub := (take_some htk).2
-    split
-    · exact ⟨fun j hj => hd.1 j (hsub j hj), hd.2⟩
-    · refine ⟨fun j hj => hd.1 j (hsub j hj), ?_⟩
-      intro p hp ht
-      simp only [List.mem_cons] at hp
-      rcases hp with rfl | hp
-      · simp only [decide_eq_true_eq] at ht
-        exact readLoop_eof_resettable K _ _ _ _ ht
-      · exact hd.2 p hp ht
-
-theorem decEnd_inv {ρ} {R : ReaderImpl ρ} (K : WeakReset R) (d : DPool ρ) (hd : DInv K d) (k : Nat) :
-    DInv K (decEnd R .dropFailed d k).1 := by
-  unfold decEnd
-  split
-  · exact hd
-  · rename_i it succeeded hk
-    have hmem : (it, succeeded) ∈ d.busy := List.mem_of_getElem? hk
-    have hb : ∀ p, p ∈ d.busy.eraseIdx k → p ∈ d.busy := fun p hp => List.mem_of_mem_eraseIdx hp
-    split
-    · exact ⟨hd.1, fun p hp => hd.2 p (hb p hp)⟩
-    · rename_i s hs
-      split
-      · exact ⟨hd.1, fun p hp => hd.2 p (hb p hp)⟩
-      · rename_i hne
-        have hsucc : succeeded = true := by
-          cases succeeded
-          · exact absurd ⟨rfl, rfl⟩ hne
-          · rfl
-        refine ⟨?_, fun p hp => hd.2 p (hb p hp)⟩
-        intro j hj
-        simp only [List.mem_cons] at hj
-        rcases hj with rfl | hj
-        · exact K.reset_nil it.st s (hd.2 _ hmem hsucc) hs
-        · exact hd.1 j hj
-
-theorem step_inv {ω ρ} (C : Codec ω ρ) (hp : C.pol = .dropFailed) (K : WeakReset C.R)
-    (s : CState ω ρ) (hd : DInv K s.d) (c : Call) : DInv K (step C s c).st.d := by
-  cases c with
-  | encBegin p dc src => exact hd
-  | encEnd k => exact hd
-  | decBegin p dc src => exact decBegin_inv K C.fuel s.d hd p dc src
-  | decEnd k => simp only [step, hp]; exact decEnd_inv K s.d hd k
-  | encode p dc src => simp only [step]; split <;> exact hd
-  | decode p dc src =>
-    simp only [step, hp]
-    split
-    · exact decBegin_inv K C.fuel s.d hd p dc src
-    · exact decEnd_inv K _ (decBegin_inv K C.fuel s.d hd p dc src) 0
-
-theorem run_inv {ω ρ} (C : Codec ω ρ) (hp : C.pol = .dropFailed) (K : WeakReset C.R)
-    (h : List Call) : ∀ (s : CState ω ρ), DInv K s.d → DInv K (run C s h).d := by
-  induction h with
-  | nil => intro s hd; exact hd
-  | cons c cs ih => intro s hd; exact ih _ (step_inv C hp K s hd c)
 
 theorem readLoop_no_oob {ρ} (R : ReaderImpl ρ) (hlen : ∀ s n, (R.read s n).2.1.length ≤ n) :
     ∀ (fuel : Nat) (s : ρ) (acc : Bytes) (cap : Nat), (readLoop R fuel s acc cap).fin ≠ .oob := by
@@ -887,6 +883,86 @@ theorem readLoop_no_oob {ρ} (R : ReaderImpl ρ) (hlen : ∀ s n, (R.read s n).2
       · simp
       · simp
       · exact ih _ _ _
+
+theorem decBegin_inv {ρ} {R : ReaderImpl ρ} (K : WeakReset R)
+    (hlen : ∀ s n, (R.read s n).2.1.length ≤ n) (rev : Rev) (fuel : Nat) (d : DPool ρ)
+    (hd : DInv K d) (pick : Option Nat) (dc : Nat) (src : Bytes) :
+    DInv K (decBegin R rev fuel d pick dc src).pool := by
+  have key : ∀ (s : ρ) (cap : Nat),
+      decide ((readLoop R fuel s [] cap).fin = .eof ∨ (readLoop R fuel s [] cap).fin = .oob) = true →
+      K.resettable (readLoop R fuel s [] cap).st = true := by
+    intro s cap ht
+    simp only [decide_eq_true_eq] at ht
+    rcases ht with ht | ht
+    · exact readLoop_eof_resettable K _ _ _ _ ht
+    · exact absurd ht (readLoop_no_oob R hlen _ _ _ _)
+  unfold decBegin
+  split
+  · split
+    · exact hd
+    · refine ⟨hd.1, ?_⟩
+      intro p hp ht
+      simp only [List.mem_cons] at hp
+      rcases hp with rfl | hp
+      · exact key _ _ ht
+      · exact hd.2 p hp ht
+  · rename_i it idle htk
+    have hsub := (take_some htk).2
+    split
+    · exact ⟨fun j hj => hd.1 j (hsub j hj), hd.2⟩
+    · refine ⟨fun j hj => hd.1 j (hsub j hj), ?_⟩
+      intro p hp ht
+      simp only [List.mem_cons] at hp
+      rcases hp with rfl | hp
+      · exact key _ _ ht
+      · exact hd.2 p hp ht
+
+theorem decEnd_inv {ρ} {R : ReaderImpl ρ} (K : WeakReset R) (d : DPool ρ) (hd : DInv K d) (k : Nat) :
+    DInv K (decEnd R .fixed d k).1 := by
+  unfold decEnd
+  split
+  · exact hd
+  · rename_i it errNil hk
+    have hmem : (it, errNil) ∈ d.busy := List.mem_of_getElem? hk
+    have hb : ∀ p, p ∈ d.busy.eraseIdx k → p ∈ d.busy := fun p hp => List.mem_of_mem_eraseIdx hp
+    split
+    · exact ⟨hd.1, fun p hp => hd.2 p (hb p hp)⟩
+    · rename_i hne
+      have hsucc : errNil = true := by
+        cases errNil
+        · exact absurd ⟨rfl, rfl⟩ hne
+        · rfl
+      split
+      · exact ⟨hd.1, fun p hp => hd.2 p (hb p hp)⟩
+      · rename_i s hs
+        refine ⟨?_, fun p hp => hd.2 p (hb p hp)⟩
+        intro j hj
+        simp only [List.mem_cons] at hj
+        rcases hj with rfl | hj
+        · exact K.reset_nil it.st s (hd.2 _ hmem hsucc) hs
+        · exact hd.1 j hj
+
+theorem step_inv {ω ρ} (C : Codec ω ρ) (hp : C.rev = .fixed) (K : WeakReset C.R)
+    (hlen : ∀ s n, (C.R.read s n).2.1.length ≤ n)
+    (s : CState ω ρ) (hd : DInv K s.d) (c : Call) : DInv K (step C s c).st.d := by
+  cases c with
+  | encBegin p dc src => exact hd
+  | encEnd k => exact hd
+  | decBegin p dc src => exact decBegin_inv K hlen C.rev C.fuel s.d hd p dc src
+  | decEnd k => simp only [step, hp]; exact decEnd_inv K s.d hd k
+  | encode p dc src => simp only [step]; split <;> exact hd
+  | decode p dc src =>
+    simp only [step, hp]
+    split
+    · exact decBegin_inv K hlen .fixed C.fuel s.d hd p dc src
+    · exact decEnd_inv K _ (decBegin_inv K hlen .fixed C.fuel s.d hd p dc src) 0
+
+theorem run_inv {ω ρ} (C : Codec ω ρ) (hp : C.rev = .fixed) (K : WeakReset C.R)
+    (hlen : ∀ s n, (C.R.read s n).2.1.length ≤ n)
+    (h : List Call) : ∀ (s : CState ω ρ), DInv K s.d → DInv K (run C s h).d := by
+  induction h with
+  | nil => intro s hd; exact hd
+  | cons c cs ih => intro s hd; exact ih _ (step_inv C hp K hlen s hd c)
 
 theorem loopOutcome_ne_panic {f : LoopEnd} (h : f ≠ .oob) (acc : Bytes) :
     loopOutcome f acc ≠ .panic := by
@@ -944,38 +1020,6 @@ theorem run_cinv {ω ρ} (C : Codec ω ρ) (h : List Call) :
   | nil => intro s hc; exact hc
   | cons c cs ih => intro s hc; exact ih _ (step_cinv C s hc c)
 
-/-- enough fuel: the loop returns `x` after `j` doublings, `j` the first exponent that fits -/
-theorem lz4Loop_valid_fuel {L enc need} (h : Lz4Contract L enc need) (x : Bytes) :
-    ∀ (k len : Nat), need x ≤ len * 2 ^ k →
-      ∃ j, j ≤ k ∧ lz4Loop L (enc x) (k + 1) len = some (x, len * 2 ^ j) ∧
-        need x ≤ len * 2 ^ j ∧ (∀ i, i < j → len * 2 ^ i < need x) ∧
-        lz4Loop L (enc x) j len = none := by
-  intro k
-  induction k with
-  | zero =>
-    intro len h1
-    simp only [Nat.pow_zero, Nat.mul_one] at h1
-    exact ⟨0, Nat.le_refl _, by simp [lz4Loop, h.fits x len h1], by simpa using h1,
-      fun i hi => by omega, rfl⟩
-  | succ k ih =>
-    intro len h1
-    by_cases hfit : need x ≤ len
-    · exact ⟨0, by omega, by simp [lz4Loop, h.fits x len hfit], by simpa using hfit,
-        fun i hi => by omega, rfl⟩
-    · have e : len * 2 ^ (k + 1) = 2 * len * 2 ^ k := by rw [Nat.pow_succ]; ac_rfl
-      obtain ⟨j, hj, hr, hn, hlt, hnone⟩ := ih (2 * len) (by omega)
-      have ej : len * 2 ^ (j + 1) = 2 * len * 2 ^ j := by rw [Nat.pow_succ]; ac_rfl
-      refine ⟨j + 1, by omega, ?_, by omega, ?_, ?_⟩
-      · rw [lz4Loop, h.short x len (by omega)]; simp only; rw [hr, ej]
-      · intro i hi
-        cases i with
-        | zero => simpa using Nat.lt_of_not_le hfit
-        | succ i =>
-          have := hlt i (by omega)
-          have ei : len * 2 ^ (i + 1) = 2 * len * 2 ^ i := by rw [Nat.pow_succ]; ac_rfl
-          omega
-      · rw [lz4Loop, h.short x len (by omega)]; simp only; exact hnone
-
 def toyWeak (cfg : ToyCfg) : WeakReset (toyReader cfg) where
   resettable := fun s => decide (toyCarry cfg s = [])
   reset_fresh_of := by
@@ -1024,5 +1068,10 @@ theorem toyLz4Contract : Lz4Contract toyLz4 toyLz4Enc (fun x => x.length) where
     cases x with
     | nil => simp at h
     | cons b x => simp [toyLz4, toyLz4Enc]; simpa using h
+  ratio := by
+    intro x
+    cases x with
+    | nil => simp [toyLz4Enc]
+    | cons b x => simp [toyLz4Enc]; omega
 
 end PqModel.Codec
